@@ -13,7 +13,7 @@ type TOp uint8
 
 const (
 	OpConst TOp = iota // BV or Bool constant (k)
-	OpSym             // named constant (name)
+	OpSym              // named constant (name)
 	OpNot
 	OpAnd
 	OpOr
